@@ -6,15 +6,55 @@ package upstream
 
 //@ ghost G_hostonly(s interface{}) bool
 
-// ---- C05: every transport hands the bare host name of the upstream URL to the session handshake
-//@ func (ups *Socket) Connect
-//@   property C05
+// ---- the session under an upstream's connection: the ClientConnection inside the named wrappers
+//@ go func unwrapNamed(c interface{}) interface{} {
+//@    if n, ok := c.(*streams.NamedConnection); ok {
+//@       if s, ok := n.Connection.(*streams.SafeConnection); ok { return s.Conn }
+//@    }
+//@    return nil
+//@ }
+//@ go func sessionOf(c streams.Connection) *socketace.ClientConnection {
+//@    x := unwrapNamed(c)
+//@    if cc, ok := x.(*socketace.ClientConnection); ok { return cc }
+//@    y := unwrapNamed(x)
+//@    if cc, ok := y.(*socketace.ClientConnection); ok { return cc }
+//@    return nil
+//@ }
+
+//@ func init
+//@   property C04, C16
+//@   safe
+//@ property C04, C16
+//@ fact websocket.ErrBadHandshake != nil                      :bad_handshake_sentinel_defined
+
 // An Http upstream is only ever built by unmarshalUpstream for one of these four schemes.
 //@ pred webScheme(s string) := s == "http" || s == "https" || s == "ws" || s == "wss"
+
+// ---- C05: every transport hands the bare host name of the upstream URL to the session handshake
+// ---- C04: a successful Connect under mustSecure leaves a session that reports itself secure
+// ---- C16: a successful Connect leaves a connection
+//@ func (ups *Socket) Connect
+//@   property C05, C04, C16
+//@   ensures err == nil ==> ups.Connection != nil                                                    :connected_means_connection
+//@   property C04, C16
+//@   ensures err == nil && mustSecure ==> sessionOf(ups.Connection) != nil && sessionOf(ups.Connection).Secure()   :required_security_is_met_or_no_session
 //@ func (ups *Http) Connect
-//@   property C05
+//@   property C05, C04, C16
 //@   requires webScheme(ups.Address.Scheme)
+//@   ensures err == nil ==> ups.Connection != nil                                                    :connected_means_connection
+//@   property C04, C16
+//@   ensures err == nil && mustSecure ==> sessionOf(ups.Connection) != nil && sessionOf(ups.Connection).Secure()   :required_security_is_met_or_no_session
 //@ func (ups *Packet) ConnectPacket
-//@   property C05
+//@   property C05, C04, C16
+//@   ensures err == nil ==> ups.Connection != nil                                                    :connected_means_connection
+//@   property C04, C16
+//@   ensures err == nil && mustSecure ==> sessionOf(ups.Connection) != nil && sessionOf(ups.Connection).Secure()   :required_security_is_met_or_no_session
 //@ func (ups *Dns) Connect
-//@   property C05
+//@   property C05, C04, C16
+//@   ensures err == nil ==> ups.Connection != nil                                                    :connected_means_connection
+//@   property C04, C16
+//@   ensures err == nil && mustSecure ==> sessionOf(ups.Connection) != nil && sessionOf(ups.Connection).Secure()   :required_security_is_met_or_no_session
+//@ func (ups *InputOutput) Connect
+//@   property C04, C16
+//@   ensures err == nil ==> ups.Connection != nil                                                    :connected_means_connection
+//@   ensures err == nil && mustSecure ==> sessionOf(ups.Connection) != nil && sessionOf(ups.Connection).Secure()   :required_security_is_met_or_no_session
